@@ -63,7 +63,7 @@ Qed.
 End L.
 
 (* ------------------------------------------------ symbolic execution tactics *)
-Ltac exec := cbv beta iota zeta delta [copy sub_param fresh pwnorm_call un_new bin_new].
+Ltac exec := cbv beta iota zeta delta [copy sub_param fresh pwnorm_call un_new bin_new const_new].
 
 Ltac nxg := repeat match goal with N : next ?hn = _ |- context [next ?hn] => is_var hn; rewrite N end.
 Ltac below_tac :=
@@ -131,20 +131,20 @@ Ltac case_ifs := repeat match goal with |- context [if ?c then _ else _] => dest
 Section L2.
 Context {T : Type} `{Num T} `{Sqrt T}.
 Notation heap := (heap T).
-Notation val := (list (list T)).
 
-
+(* every lemma: unfold the REGENERATED program, split on the operator parameters and on x-is-out,
+   execute symbolically *)
 Lemma l1_ok lam sigma g (h : heap) x out : pre h x out ->
   post h (call_l1 lam sigma g x out h) out (pure_l1 lam sigma g (get h x)).
 Proof.
-  intros Hpre; split_alias Hpre; unfold call_l1; [rewrite ref_eqb_refl | rewrite He];
-    destruct g as [gv|]; run_leaf.
+  intros Hpre; split_alias Hpre; unfold call_l1; destruct g as [gv|]; rewrite ?ref_eqb_refl, ?He; run_leaf.
 Qed.
 
-Lemma ccl1_ok lam sigma g (h : heap) x out : pre h x out ->
+Lemma ccl1_ok lam sigma g (h : heap) x out :
+  match sigma, g with El sv, Some _ => length sv = length x | _, _ => True end -> pre h x out ->
   post h (call_ccl1 lam sigma g x out h) out (pure_ccl1 lam sigma g (get h x)).
 Proof.
-  intros Hpre; split_alias Hpre; unfold call_ccl1; destruct g as [gv|];
+  intros Hs Hpre; split_alias Hpre; unfold call_ccl1; destruct g as [gv|], sigma as [s|sv];
     rewrite ?ref_eqb_refl, ?He; run_leaf.
 Qed.
 
@@ -167,9 +167,8 @@ Qed.
 Lemma box_ok lo hi (h : heap) x out : pre h x out ->
   post h (call_box lo hi x out h) out (pure_box lo hi (get h x)).
 Proof.
-  intros Hpre; split_alias Hpre; unfold call_box, pure_box; destruct lo, hi; run_leaf.
+  intros Hpre; split_alias Hpre; unfold call_box, pure_box; destruct lo, hi; cbn [bnd_is andb negb]; run_leaf.
 Qed.
-
 
 Lemma l2_ok w e1p lam sigma g (h : heap) x out :
   match g with Some gv => length gv = length x | None => True end -> pre h x out ->
@@ -200,5 +199,11 @@ Lemma projl1_ok radius (h : heap) x out : pre h x out ->
   post h (proj_l1 radius x out h) out (pure_projl1 radius (get h x)).
 Proof.
   intros Hpre; split_alias Hpre; unfold proj_l1, pure_projl1; exec; absorb; rdv; case_ifs; finish.
+Qed.
+
+Lemma sumc_ok s (h : heap) x out : pre h x out ->
+  post h (call_sumc s x out h) out (pure_sumc s (get h x)).
+Proof.
+  intros Hpre; split_alias Hpre; unfold call_sumc, pure_sumc; run_leaf.
 Qed.
 End L2.
